@@ -160,7 +160,9 @@ CLAIMED = {
             "computed keys in any position, objects with arbitrary keys and order of untouched keys.", "7.10",
             "Coq proof + model/implementation correspondence + Python reference position model"),
     "C11": ("Theorems: limit(n;f) ++ skip(n;f) = f for every machine-integer count and every stream (error/break/out-of-fuel "
-            "terminated included), non-positive counts, first = limit 1, nothing follows the first error; reduce and foreach of the "
+            "terminated included), non-positive counts, first = limit 1, nothing follows the first error; last(f) is the last element of the "
+            "collected stream and is ended by the first error inside it, nth(n; f) = first(skip(n; f)) is the n-th output, nothing beyond the end, "
+            "the first for n <= 0 (Proofs/LastLaws.v); reduce and foreach of the "
             "interpreter equal their nested-pipe expansion for every number of outputs of update and projection (fold_expansion, "
             "reduce_is_nested_pipes); native range/3 on machine integers with positive step is exactly the arithmetic progression below "
             "the bound. Correspondence + oracle: the "
